@@ -75,7 +75,7 @@ func VerifC02_ReceiverOnTerminal() {
 	switch zz.Choice("kind", 3) {
 	case 0:
 		req := verifArbitraryRequest("req")
-		req.TransferId = uint64(chid.ID)
+		zz.SetInt(&req.TransferId, uint64(chid.ID))
 		zz.Assume(chid.Initiator == other) // requests come from the initiator
 		_ = f.rcv.receiveRequest(ctx, other, req)
 		if req.IsRestart() {
@@ -95,7 +95,7 @@ func VerifC02_ReceiverOnTerminal() {
 		}
 	case 1:
 		resp := verifArbitraryResponse("resp")
-		resp.TransferId = uint64(chid.ID)
+		zz.SetInt(&resp.TransferId, uint64(chid.ID))
 		zz.Assume(chid.Responder == other)
 		_ = f.rcv.receiveResponse(ctx, other, resp)
 	case 2:
@@ -166,7 +166,7 @@ func VerifC02_TerminatesDuringRevalidation() {
 	}
 	req := verifScalarRequest("req")
 	zz.Assume(req.MessageType == 6) // restart
-	req.TransferId = uint64(chid.ID)
+	zz.SetInt(&req.TransferId, uint64(chid.ID))
 	base := st.BaseCid
 	req.BaseCidPtr = &base
 	req.SelectorPtr = st.Selector.Node
